@@ -63,4 +63,20 @@ def serverFuel {B} (c : Codec B) : Nat → Bytes → List B × End
 
 def server {B} (c : Codec B) (bs : Bytes) : List B × End := serverFuel c (bs.length + 1) bs
 
+/-- `MTCPClient.Send` as a function of the outcomes of its I/O steps, in order: serialise, write head, write
+bundle, flush, write the zero-length probe (`true` = the step succeeded). The first failing step ends the call;
+the deferred function reports `PeerDisappeared` exactly when an error is returned. -/
+structure SendOutcome where
+  err : Bool
+  peerDisappeared : Bool
+  stepsDone : Nat
+deriving Repr, DecidableEq
+
+def sendSteps : Nat := 5
+
+def send (ios : List Bool) : SendOutcome :=
+  let done := ((ios.take sendSteps).takeWhile id).length
+  let failed := decide (done < sendSteps)
+  ⟨failed, failed, done⟩
+
 end Dtn7.Mtcp
